@@ -241,6 +241,55 @@ def real_parser(ep):
     return None, None
 
 
+class _Captured(Exception):
+    pass
+
+
+def git_entrypoint_namespace(ep, argv):
+    """Namespace the git drivers / tools hand to their worker, obtained by calling the real main() with the worker patched out."""
+    box = {}
+
+    def capture(*a, **k):
+        box["ns"] = [x for x in a if hasattr(x, "__dict__") and hasattr(x, "subcommand")][-1]
+        return 0
+    if ep == "git-nbmergedriver":
+        from nbdime.vcs.git import mergedriver as m
+        saved = m.nbmergeapp.main_merge
+        m.nbmergeapp.main_merge = capture
+        try:
+            m.main(["merge"] + argv + ["b.ipynb", "l.ipynb", "r.ipynb", "7", "p.ipynb"])
+        finally:
+            m.nbmergeapp.main_merge = saved
+    elif ep == "git-nbdiffdriver":
+        from nbdime.vcs.git import diffdriver as m
+        from nbdime import nbdiffapp
+        saved = nbdiffapp.main_diff
+        nbdiffapp.main_diff = capture
+        try:
+            m.main(["diff"] + argv + ["p.ipynb", "a.ipynb", "0" * 40, "100644", "b.ipynb", "1" * 40, "100644"])
+        finally:
+            nbdiffapp.main_diff = saved
+    elif ep == "git-nbdifftool":
+        from nbdime.vcs.git import difftool as m
+        saved = m.show_diff
+        m.show_diff = capture
+        try:
+            m.main(["diff"] + argv + ["l.ipynb", "r.ipynb", "p.ipynb"])
+        finally:
+            m.show_diff = saved
+    elif ep == "git-nbmergetool":
+        from nbdime.vcs.git import mergetool as m
+        saved = m.nbmergetool.main_parsed
+        m.nbmergetool.main_parsed = capture
+        try:
+            m.main(["merge"] + argv + ["b.ipynb", "l.ipynb", "r.ipynb", "m.ipynb"])
+        finally:
+            m.nbmergetool.main_parsed = saved
+    else:
+        return None
+    return vars(box["ns"]) if "ns" in box else None
+
+
 def run_case(case):
     import nbdime.config as nc
     from ..nbd import reset_state
@@ -278,6 +327,27 @@ def run_case(case):
         except Exception as e:
             out.fail_exc("parser_builds", e)
             parser = None
+        if parser is None and ep.startswith("git-"):
+            argv = []
+            for o, v in case["flags"].items():
+                fa = flag_argv(o, v)
+                if fa and o != "log_level":            # --log-level belongs to the top-level parser, before the sub-command
+                    argv += fa
+            try:
+                ns = git_entrypoint_namespace(ep, argv)
+            except SystemExit:
+                out.count("parser_rejected_flags")
+                ns = None
+            except Exception as e:
+                out.fail_exc("parser_returns", e)
+                ns = None
+            if ns is not None:
+                out.count("parser_level_comparisons")
+                out.count("git_entry_point_namespaces")
+                case2 = dict(case, flags={k: v for k, v in case["flags"].items() if k != "log_level"})
+                want = model(case2, with_flags=True)
+                want.pop("Ignore", None)
+                compare(out, "parser", want, ns, case2, level="parser")
         if parser is not None:
             out.count("parser_level_comparisons")
             argv = []
